@@ -27,6 +27,7 @@ type Obligation struct {
 	Folded bool // decided by constant folding (goal == true)
 	ExpectSat bool // vacuity canaries: must be satisfiable
 	Mode   Mode
+	Batch  int // obligations of one site on one path share a batch id (0 = none)
 }
 
 type Exec struct {
@@ -60,6 +61,11 @@ type Exec struct {
 	refHeaps map[string]bool
 	nextBefore string
 	elemRange map[string]string
+	batch int
+	selfVal *Value
+	batchCtr int
+	forks int
+	pruned int
 }
 
 type toolLimit struct{ msg string }
@@ -237,7 +243,7 @@ func (x *Exec) oblige(st *State, kind, label string, props []string, goal, where
 	if label != "" {
 		name += "/" + label
 	}
-	o := &Obligation{Name: name, Func: x.fname, Kind: kind, Label: label, Props: props, Goal: goal, Where: where, Src: src, Mode: x.Mode}
+	o := &Obligation{Name: name, Func: x.fname, Kind: kind, Label: label, Props: props, Goal: goal, Where: where, Src: src, Mode: x.Mode, Batch: x.batch}
 	if goal == "true" {
 		o.Folded = true
 	} else {
@@ -649,6 +655,7 @@ func (x *Exec) typeInv(t string, typ types.Type) string {
 func (x *Exec) VerifyFunc(fn *ssa.Function, fc *FuncContract, name string) (obls []*Obligation, err error) {
 	x.fn, x.fc, x.fname = fn, fc, name
 	x.obls = nil
+	x.forks, x.pruned = 0, 0
 	x.paths = 0
 	x.returned = 0
 	x.curPkg = x.P.rootPkg(fn)
@@ -695,7 +702,32 @@ func (x *Exec) VerifyFunc(fn *ssa.Function, fc *FuncContract, name string) (obls
 			st.assume(app("not", eq(x.term(cv), "0")))
 		}
 	}
+	if fc != nil && fc.Slot {
+		// slot conformance: formal names of the slot contract alias the function's parameters
+		for i, sp := range fc.Params {
+			if i < len(fn.Params) {
+				fr.Params[sp.Name] = fr.Regs[fn.Params[i]]
+			}
+		}
+		fr.Params["self"] = &Value{T: fmt.Sprint(x.fnID(fn)), Sort: "Int"}
+	}
 	x.entryParams = fr.Params
+	if fn.Name() == "init" || strings.HasPrefix(fn.Name(), "init#") {
+		// package-level variables written only by this initializer start zeroed
+		if pk := fn.Pkg; pk != nil {
+			for _, m := range pk.Members {
+				g, ok := m.(*ssa.Global)
+				if !ok {
+					continue
+				}
+				cls := "G_" + sanitize(globalName(g))
+				if x.Eff != nil && x.Eff.OnlyWriter(cls, fn) {
+					el := g.Type().(*types.Pointer).Elem()
+					x.setHeap(st, cls, x.Sorts.SortOf(el), x.Sorts.Zero(el))
+				}
+			}
+		}
+	}
 	x.assumeGlobalInvs(st)
 	x.entry = st.snapshot()
 	// requires + invariants
@@ -710,6 +742,9 @@ func (x *Exec) VerifyFunc(fn *ssa.Function, fc *FuncContract, name string) (obls
 			x.assumeLemma(st, lm)
 		}
 		for _, inv := range x.invariantsFor(fn, fc) {
+			if inv.inv.History {
+				continue
+			}
 			st.assume(x.evalBool(env.with(inv.Binder, inv.val), inv.inv.Expr))
 		}
 		for _, r := range fc.Requires {
@@ -824,8 +859,15 @@ func (x *Exec) run(st *State) {
 			st2.assume(not(ct))
 			st2.note("%s: %s", x.P.Pos(instrPos(ins)), "else")
 			b0, b1 := fr.Block.Succs[0], fr.Block.Succs[1]
-			if x.gotoBlock(st2, b1) {
-				x.run(st2)
+			x.forks++
+			prune := x.forks > 24 // only functions with many branches pay for feasibility checks
+			if !(prune && !x.feasible(st2)) {
+				if x.gotoBlock(st2, b1) {
+					x.run(st2)
+				}
+			}
+			if prune && !x.feasible(st) {
+				return
 			}
 			if !x.gotoBlock(st, b0) {
 				return
@@ -868,6 +910,28 @@ func (x *Exec) run(st *State) {
 			x.step(st, fr, ins)
 		}
 	}
+}
+
+// feasible asks the solver whether the path condition is satisfiable; only a
+// definite unsat prunes the path.
+func (x *Exec) feasible(st *State) bool {
+	// quantified hypotheses are left out: unsat of a subset is still unsat
+	var items []Item
+	for _, it := range st.items {
+		if it.Def == "" && (strings.Contains(it.Term, "(forall ") || strings.Contains(it.Term, "(exists ")) {
+			continue
+		}
+		items = append(items, it)
+	}
+	o := &Obligation{Name: "feasibility", Goal: "false", ExpectSat: true, Items: items}
+	script := assembleScript(x.Reg, o, false, false, false)
+	script = stripQuantifiedDecls(script)
+	sr := quickSolve(script, 1)
+	if sr == "unsat" {
+		x.pruned++
+		return false
+	}
+	return true
 }
 
 func (x *Exec) tuple(res []*Value, t types.Type) *Value {
@@ -1001,9 +1065,35 @@ func (x *Exec) checkLoopInv(st *State, fr *Frame, l *Loop, phase string) {
 		if label == "" {
 			label = fmt.Sprint(i + 1)
 		}
+		if cc, ok := cl.Expr.(*CCall); ok && cc.Fn == "invs" && len(cc.Args) == 1 {
+			a := x.eval(env, cc.Args[0])
+			fc := x.contractOfFrame(fr)
+			for _, inv := range x.C.Invs {
+				if fc != nil && (fc.NoInv[inv.Name] || fc.NoInv["*"]) {
+					continue
+				}
+				if a.Typ != nil && x.typeMatches(a.Typ, inv.Type) {
+					if inv.History && !x.isEntryParam(a) {
+						continue // the object did not exist at entry: no pre-state to compare with
+					}
+					g := x.evalBool(env.with(inv.Binder, a), inv.Expr)
+					x.oblige(st, fmt.Sprintf("loop%d/%s", l.Ordinal, phase), "inv_"+inv.Name, inv.Props, g, inv.Where, inv.Src)
+				}
+			}
+			continue
+		}
 		g := x.evalBool(env, cl.Expr)
 		x.oblige(st, fmt.Sprintf("loop%d/%s", l.Ordinal, phase), label, cl.Props, g, cl.Where, cl.Src)
 	}
+}
+
+func (x *Exec) isEntryParam(a *Value) bool {
+	for _, v := range x.entryParams {
+		if v == a || (v != nil && v.T != "" && v.T == a.T) {
+			return true
+		}
+	}
+	return false
 }
 
 func (x *Exec) recordLoopVariant(st *State, fr *Frame, l *Loop) {
@@ -1205,6 +1295,9 @@ func (x *Exec) atReturn(st *State, res []*Value, ins *ssa.Return) {
 	// ghost effects of this function's own contract are applied at its exit
 	x.applyGhost(st, env, fc)
 	env = x.envFor(st, x.entry, fr).withResults(res, x.fn)
+	x.batchCtr++
+	x.batch = x.batchCtr
+	defer func() { x.batch = 0 }()
 	for i, cl := range fc.Ensures {
 		label := cl.Label
 		if label == "" {
